@@ -1,6 +1,6 @@
 SPECIFICATION Spec
 CONSTANTS
-  MaxH = 140
+  MaxH = 132
   MaxBlocks = 4
   Maxes <- MCMaxes
   FieldMasks <- MCMasks
